@@ -322,6 +322,10 @@ func zz07Value(e *Encoder, v int, nsDisabled, ref bool) (empty bool) {
 	case 13:
 		err = e.WriteValue(Value(`[ ]`))
 		empty = true
+	case 15:
+		tok(String("\\\"")) // the two characters \" : the literal "\\\"" ends with an escaped backslash, an escaped quote and the closing quote
+	case 16:
+		tok(String("\\")) // a lone backslash: the literal "\\" ends with backslash, backslash, quote
 	default:
 		// a nested struct whose only field is omitempty and empty: {"i":null} -> {}
 		tok(BeginObject)
@@ -339,7 +343,7 @@ func zz07Value(e *Encoder, v int, nsDisabled, ref bool) (empty bool) {
 	return empty
 }
 
-const zz07NumValues = 15
+const zz07NumValues = 17
 
 func zz07Name(i, nameLen int, sym bool) string {
 	if sym {
@@ -397,7 +401,11 @@ func VerifC07Unwrite(pre, k, c, nameLen, ws int, nsDisabled, symNames, ptr, prob
 	for i := 0; i < k; i++ {
 		err := et.WriteToken(String(names[i]))
 		vrt.Assume(err == nil) // symbolic names: only valid UTF-8
-		v := vrt.Choice("v"+zz07Itoa(i), zz07NumValues)
+		nv := zz07NumValues
+		if k > 2 {
+			nv = 15 // three members: the two backslash kinds are left to the 1-2 member obligations (budget)
+		}
+		v := vrt.Choice("v"+zz07Itoa(i), nv)
 		empty := zz07Value(et, v, nsDisabled, false)
 		removed := false
 		if vrt.Bool("omitempty" + zz07Itoa(i)) {
